@@ -332,7 +332,7 @@ def collect(w, idx):
         w.user_events.append(('kbd', idx))
         sched.emit('user.kbd_at_result', idx=idx)
         raise
-    except AbortExecution:
+    except (AbortExecution, detsched.SeqDeadlock):
         raise
     except BaseException as e:  # noqa
         w.outcomes[idx] = ('exc', e)
@@ -522,7 +522,7 @@ def run_scenario(scn, prefix=(), scratch=None, record_points=False, on_point=Non
     def main():
         try:
             user_script(w)
-        except AbortExecution:
+        except (AbortExecution, detsched.SeqDeadlock):
             raise
         except BaseException as e:  # noqa
             w.script_exc = e
